@@ -123,8 +123,9 @@ func observe(cfg routing.Config, extra *routing.Service, base routing.Req) (*Obs
 				ran = out.Kind == "sel"
 			}()
 			filtered.Dispatch(rec, hr)
-			o.OptAllow = splitList(strings.Join(rec.Header()["Allow"], ","))
-			o.OptACAM = splitList(strings.Join(rec.Header()["Access-Control-Allow-Methods"], ","))
+			sent := rec.Result().Header // the headers as sent, not the live map
+			o.OptAllow = splitList(strings.Join(sent["Allow"], ","))
+			o.OptACAM = splitList(strings.Join(sent["Access-Control-Allow-Methods"], ","))
 			o.OptRan = ran
 			continue
 		}
